@@ -30,7 +30,7 @@ func fieldLoadOf(v ssa.Value, base ssa.Value) (string, bool) {
 		return "", false
 	}
 	fa, ok := addr.(*ssa.FieldAddr)
-	if !ok || fa.X != base {
+	if !ok || (fa.X != base && !isParamValue(fa.X, base)) {
 		return "", false
 	}
 	return fieldAddrName(fa), true
@@ -46,10 +46,165 @@ func linesElem(v ssa.Value, recv ssa.Value) (ssa.Value, bool) {
 	if !ok {
 		return nil, false
 	}
-	if f, ok := fieldLoadOf(ia.X, recv); !ok || f != "lines" {
+	if !isLinesOf(ia.X, recv) {
 		return nil, false
 	}
 	return ia.Index, true
+}
+
+// throughCell: v, or — when v is a load of a local cell (a variable a closure captures) that is stored exactly once — the
+// value stored there.
+func throughCell(v ssa.Value) ssa.Value {
+	for i := 0; i < 4; i++ {
+		v = stripConv(v)
+		u, ok := v.(*ssa.UnOp)
+		if !ok || u.Op != token.MUL {
+			return v
+		}
+		al, ok := u.X.(*ssa.Alloc)
+		if !ok {
+			return v
+		}
+		var val ssa.Value
+		n := 0
+		for _, r := range referrers(al) {
+			if st, ok := r.(*ssa.Store); ok && st.Addr == ssa.Value(al) {
+				n++
+				val = st.Val
+			}
+		}
+		if n != 1 {
+			return v
+		}
+		v = val
+	}
+	return v
+}
+
+// isLinesOf: v is recv.lines (possibly kept in a local variable).
+func isLinesOf(v ssa.Value, recv ssa.Value) bool {
+	f, ok := fieldLoadOf(throughCell(v), recv)
+	return ok && f == "lines"
+}
+
+// isParamValue: v is the parameter, or a load of the cell the parameter lives in when a closure captures it (and
+// nothing else is ever stored there).
+func isParamValue(v ssa.Value, param ssa.Value) bool {
+	v = stripConv(v)
+	if v == param {
+		return true
+	}
+	u, ok := v.(*ssa.UnOp)
+	if !ok || u.Op != token.MUL {
+		return false
+	}
+	al, ok := u.X.(*ssa.Alloc)
+	if !ok {
+		return false
+	}
+	n := 0
+	for _, r := range referrers(al) {
+		if st, ok := r.(*ssa.Store); ok && st.Addr == ssa.Value(al) {
+			n++
+			if stripConv(st.Val) != param {
+				return false
+			}
+		}
+	}
+	return n == 1
+}
+
+// binarySearchLine: v is sort.Search(len(recv.lines), func(i int) bool { return recv.lines[i] > pos }) - 1.
+func binarySearchLine(v ssa.Value, recv, pos ssa.Value) bool {
+	x, k := plusConst(v)
+	if k != -1 {
+		return false
+	}
+	call, ok := x.(*ssa.Call)
+	if !ok || len(call.Call.Args) != 2 {
+		return false
+	}
+	sc := call.Call.StaticCallee()
+	if sc == nil || sc.Pkg == nil || sc.Pkg.Pkg.Path() != "sort" || sc.Name() != "Search" {
+		return false
+	}
+	n, ok := call.Call.Args[0].(*ssa.Call)
+	if !ok || !isLenCall(n) {
+		return false
+	}
+	if !isLinesOf(n.Call.Args[0], recv) {
+		return false
+	}
+	mc, ok := call.Call.Args[1].(*ssa.MakeClosure)
+	if !ok {
+		return false
+	}
+	cl := mc.Fn.(*ssa.Function)
+	if len(cl.Params) != 1 {
+		return false
+	}
+	// free variables of the closure stand for the values bound to them
+	bound := map[ssa.Value]ssa.Value{}
+	for i, fv := range cl.FreeVars {
+		if i < len(mc.Bindings) {
+			bound[fv] = mc.Bindings[i]
+		}
+	}
+	resolve := func(v ssa.Value) ssa.Value {
+		v = stripConv(v)
+		if b, ok := bound[v]; ok {
+			return stripConv(b)
+		}
+		// a captured variable is a cell: *freevar
+		if u, ok := v.(*ssa.UnOp); ok && u.Op == token.MUL {
+			if b, ok := bound[u.X]; ok {
+				if al, ok := b.(*ssa.Alloc); ok {
+					for _, r := range referrers(al) {
+						if st, ok := r.(*ssa.Store); ok && st.Addr == ssa.Value(al) {
+							return stripConv(st.Val)
+						}
+					}
+				}
+			}
+		}
+		return v
+	}
+	nret := 0
+	for _, b := range cl.Blocks {
+		ret, ok := b.Instrs[len(b.Instrs)-1].(*ssa.Return)
+		if !ok {
+			continue
+		}
+		nret++
+		bo, ok := ret.Results[0].(*ssa.BinOp)
+		if !ok {
+			return false
+		}
+		elemOf := func(v ssa.Value) bool {
+			addr, ok := isLoad(stripConv(v))
+			if !ok {
+				return false
+			}
+			ia, ok := addr.(*ssa.IndexAddr)
+			if !ok || ia.Index != ssa.Value(cl.Params[0]) {
+				return false
+			}
+			// the table: f.lines with f captured, or a captured local that holds f.lines
+			if ld, ok := isLoad(ia.X); ok {
+				if fa, ok := ld.(*ssa.FieldAddr); ok && fieldAddrName(fa) == "lines" && resolve(fa.X) == recv {
+					return true
+				}
+			}
+			return isLinesOf(resolve(ia.X), recv)
+		}
+		switch {
+		case bo.Op == token.GTR && elemOf(bo.X) && resolve(bo.Y) == pos:
+		case bo.Op == token.LSS && elemOf(bo.Y) && resolve(bo.X) == pos:
+		default:
+			return false
+		}
+	}
+	return nret == 1
 }
 
 // plusConst: v is x + k (k constant) or x (k = 0) or x - k.
@@ -324,6 +479,7 @@ func ruleC20R3(w *World, r *Report) {
 	}
 	recv, pos := fn.Params[0], fn.Params[1]
 	nfound := 0
+	searchByLibrary := false
 	var lineVal ssa.Value
 	for _, b := range fn.Blocks {
 		ret, ok := b.Instrs[len(b.Instrs)-1].(*ssa.Return)
@@ -342,7 +498,7 @@ func ruleC20R3(w *World, r *Report) {
 		nfound++
 		col := stripConv(ret.Results[1])
 		bo, ok := col.(*ssa.BinOp)
-		if !ok || bo.Op != token.SUB || stripConv(bo.X) != ssa.Value(pos) {
+		if !ok || bo.Op != token.SUB || !isParamValue(bo.X, pos) {
 			r.bad(rule, construct, w.pos(ret.Pos()), "the column is not pos minus the start of a line")
 			continue
 		}
@@ -381,6 +537,13 @@ func ruleC20R3(w *World, r *Report) {
 				guarded = (c.Op == token.GEQ && onTrue) || (c.Op == token.LSS && !onTrue)
 			}
 		}
+		if !guarded && binarySearchLine(idx, recv, pos) {
+			// line = sort.Search(len(lines), func(i) bool { return lines[i] > pos }) - 1: by the contract of sort.Search
+			// over the ascending table (C20/R4) the first entry after pos, minus one, is the last entry <= pos
+			r.ok(rule, construct, w.pos(ret.Pos()), "column = pos - lines[line] with line = sort.Search(len(lines), lines[i] > pos) - 1: the last line that starts at or before pos")
+			searchByLibrary = true
+			continue
+		}
 		if guarded {
 			r.ok(rule, construct, w.pos(ret.Pos()), "column = pos - lines[line] under lines[line] <= pos")
 		} else {
@@ -393,6 +556,10 @@ func ruleC20R3(w *World, r *Report) {
 	}
 	// direction of the search
 	construct := "search order"
+	if searchByLibrary {
+		r.ok(rule, construct, w.pos(fn.Pos()), "binary search by sort.Search over the ascending line table")
+		return
+	}
 	phi, ok := lineVal.(*ssa.Phi)
 	if !ok {
 		r.undecided(rule, construct, w.pos(fn.Pos()), "the returned line is not a loop variable (another search scheme than the linear scan this rule knows)")
